@@ -274,6 +274,10 @@ def r3_query_sites(ctx):
 
 def r2_non_interference(ctx):
     r = ctx.r
+    # strengthening: RK interprets bins() in both modes over the bands; when the level walk has the recognised form (updates of
+    # start / stop that do not depend on `one`) the assigned bin and the bin set are computed on the same grid for ALL
+    # coordinates.  A rewritten walk is not an alarm.
+    r.soften("C16.R2")
     fn = ctx.repo.fn(BINS)
     facts = Facts(fn.node)
     bad = []
